@@ -675,17 +675,19 @@ class Calendar(MutableTimeline[Event]):
     def _calendar_timezone(self) -> ZoneInfo | None:
         """Get calendar timezone, fetching from API on first access."""
         if not self.__calendar_timezone_fetched:
-            self.__calendar_timezone_fetched = True
             try:
                 cal_info = self.calendar.get_calendar(calendar_id=self.calendar_id)
-                tz_str = getattr(cal_info, "timezone", None)
-                if tz_str:
-                    self.__calendar_timezone = ZoneInfo(tz_str)
-            except Exception:
-                # Gracefully handle: API errors, stub/mock calendars without
-                # get_calendar, invalid timezone strings, etc. Fall back to UTC
+            except AttributeError:
+                # Stub/mock calendars without get_calendar: fall back to UTC
                 # (None) for all-day events.
-                pass
+                cal_info = None
+            # Any other failure (API error, invalid timezone string) propagates:
+            # a transient error must not silently pin the calendar to UTC.  The
+            # timezone counts as fetched only once the lookup has succeeded.
+            tz_str = getattr(cal_info, "timezone", None)
+            if tz_str:
+                self.__calendar_timezone = ZoneInfo(tz_str)
+            self.__calendar_timezone_fetched = True
         return self.__calendar_timezone
 
     @override
